@@ -742,6 +742,7 @@ struct Mon {
 	bool broken = false;
 
 	void check_save() {
+		if (x.compare_bad) viol("C12", "buffers-equal-iff-activity-equal", "SerialBuffer operator==/!= disagree with the bytes of two snapshots (equal buffers must compare equal, different ones unequal)");
 		if (x.save_differs) { viol("C12", "canonical", "save() of one and the same machine produced different bytes in two buffers that held different contents before the call"); viol("C17", "output-independent-of-prior-memory", "the serialized form depends on what the SerialBuffer held before save()"); }
 		if (!x.canary_ok) { viol("C12", "save-stays-in-buffer", "save() wrote outside the SerialBuffer object"); viol("C18", "no-out-of-bounds-access", "save() wrote outside the SerialBuffer object (canary bytes next to it changed)"); }
 		const unsigned bits = g_info->serial_bits;
@@ -819,6 +820,7 @@ uint64_t hash_op(const OpExec& x, bool neutral) {
 	}
 	if (x.after.valid) {
 		h = fnv8(h, static_cast<uint64_t>(x.after.active_id)); h = fnv(h, x.after.active, nb);
+		h = fnv8(h, x.after.ctx_copies | static_cast<uint64_t>(x.after.ctx_moves) << 32);
 		if (!neutral) { h = hash_plan(h, x.after.plan); if (x.after.has_prev) h = hash_trans(h, x.after.prev); if (x.after.has_serial) h = fnv(h, &x.after.serial[0], x.after.serial.size()); }
 	} else h = fnv8(h, 0xdead);
 	return h;
